@@ -41,6 +41,15 @@
 (* The module is also a behaviour specification (Init / Next over the      *)
 (* variables st, res) that TLC model-checks for small widths; its state    *)
 (* graph is replayed transition by transition on the real class.           *)
+(*                                                                         *)
+(* OBJECT IDENTITY.  This module describes ONE object and the outcome of   *)
+(* ONE call.  Bits objects are mutable in place, so two more rules are     *)
+(* needed to give "returns the mathematically defined value" a meaning     *)
+(* over a whole history: every operation returning a Bits value returns a  *)
+(* NEW object, and a mutator changes its own object only.  They are        *)
+(* modelled by spec/BitsHeap.tla (a heap of objects, INSTANCE of this      *)
+(* module per object) and checked on logged histories over several live    *)
+(* objects by spec/BitsObjTrace.tla.                                       *)
 (***************************************************************************)
 EXTENDS Integers, Sequences, FiniteSets, TLC
 
@@ -152,7 +161,7 @@ DivModAdmits(refl, x, y, oq, orr) ==
              /\ B!IsBV(BVof(oq)) /\ B!IsBV(BVof(orr))
              /\ B!IsQuotRem(l, r, BVof(oq), BVof(orr))
 
-UnaryOps == {"invert", "int", "uint", "pyint", "index", "bool", "nbits", "clone"}
+UnaryOps == {"invert", "int", "uint", "pyint", "index", "bool", "nbits", "clone", "deepcopy"}
 UnOuts(op, x) ==
     LET xb == BVof(x)
     IN  CASE op = "invert" -> Det(OkBits(B!Not(xb)))
@@ -160,7 +169,7 @@ UnOuts(op, x) ==
           [] op \in {"uint", "pyint", "index"} -> Det(OkInt(FALSE, xb))
           [] op = "bool"   -> Det(OkBool(~B!IsZero(xb)))
           [] op = "nbits"  -> Det(OkNat(x.w))
-          [] op = "clone"  -> Det(OkBits(xb))
+          [] op \in {"clone", "deepcopy"} -> Det(OkBits(xb))       \* x.clone(), copy.deepcopy(x)
 
 \* hash(x) == hash(y) must hold for equal values of equal width; otherwise open
 HashEqOuts(x, y) == IF x.w = y.w /\ x.d = y.d THEN Det(OkBool(TRUE)) ELSE Either(OkBool(TRUE), OkBool(FALSE))
